@@ -79,6 +79,22 @@ class Ctx:
             self._defs[key] = c
         return c
 
+    def quot(self, t, f):
+        """(t div f, t mod f) for a divisor that is positive: named by fresh constants characterised linearly
+        (t == q*f + r, 0 <= r < f) in addition to the div/mod terms themselves."""
+        if not is_z3(t) and not is_z3(f):
+            return t // f, t % f
+        t3, f3 = to_z3(t), to_z3(f)
+        key = ("quot", z3.simplify(t3).sexpr(), z3.simplify(f3).sexpr())
+        hit = self._defs.get(key)
+        if hit is None:
+            q, r = self.fresh("q"), self.fresh("r")
+            self.assumptions.append(z3.Implies(f3 > 0, z3.And(q == t3 / f3, r == t3 % f3, t3 == q * f3 + r,
+                                                              r >= 0, r < f3)))
+            hit = (q, r)
+            self._defs[key] = hit
+        return hit
+
     # -- paths ----------------------------------------------------------------------------------
     def start_path(self, prefix):
         self._defs = {}
